@@ -9,6 +9,15 @@
  *
  * -DDRV_FILL build: util/entropy.c is #included instead and linked with --wrap=read;
  *   fill <buflen> <answers> -> "ok <hex> used=<k>" | "fail used=<k>"
+ *
+ * -DDRV_OS build: crypto_entropy.c is #included, the REAL util/entropy.c of the repository is
+ * compiled and linked, and open/read/close are interposed (--wrap=open,open64,read,close): the
+ * OS entropy device is a script of sessions, one per open():
+ *   os <sessions> <reqs>   -> "<r1> ... | K=.. V=.. c=.. i=.. used=<sessions> sys=<s1>+<s2>.."
+ *   sess <buflen> <session> -> "ok <hex> sys=<s>" | "fail sys=<s>"     (entropy_read alone)
+ * session = <o|x>:<reads>:<closes> (see model/drbg_main.ml).  The wrappers also check that the
+ * device is "/dev/urandom" opened read-only, that read and close are given the descriptor open
+ * returned, and that every read asks exactly for the unfilled rest of one buffer.
  */
 #include "drv_common.h"
 
@@ -84,6 +93,245 @@ fill_case(char * nstr, char * astr)
 		printf("fail used=%d\n", used);
 	for (i = 0; i < nans; i++) free(ans[i].data);
 	free(fill_buf);
+}
+
+#elif defined(DRV_OS)
+/* ============ crypto_entropy.c over the real util/entropy.c, system calls scripted ============ */
+#include <fcntl.h>
+#include <stdarg.h>
+#include "crypto_entropy.c"
+
+#ifdef CPUSUPPORT_X86_RDRAND
+#error "drv_drbg must be built with the `none` CPU configuration (no RDRAND mixing)"
+#endif
+
+#define FAKE_FD 1000
+struct rd { int kind; uint8_t * data; size_t len; };	/* kind: 0 bytes, 1 -1/EIO, 2 -1/EINTR */
+struct sess {
+	int open_ok;
+	struct rd * reads; int nreads, rpos;
+	char * closes; int ncloses, cpos;
+	int rcalls;			/* read() calls made in this session */
+	size_t first_n;			/* size asked by its first read() */
+	uint8_t * buf0; size_t filled;	/* buffer of the first read, bytes delivered so far */
+};
+static struct sess * ss; static int nss, ss_pos, cur;
+static const char * bad;		/* first malformed system call, if any */
+static int * order; static int norder;	/* sessions in the order they were opened (-1: beyond the script) */
+
+static int
+os_open(const char * path, int flags)
+{
+
+	if (strcmp(path, "/dev/urandom") != 0 && bad == NULL) bad = "open:path";
+	if ((flags & O_ACCMODE) != O_RDONLY && bad == NULL) bad = "open:flags";
+	if (cur >= 0 && bad == NULL) bad = "open:previous-descriptor-still-open";
+	order = realloc(order, (size_t)(norder + 1) * sizeof(int));
+	if (ss_pos >= nss) {		/* script exhausted */
+		order[norder++] = -1;
+		errno = ENOENT;
+		return (-1);
+	}
+	order[norder++] = ss_pos;
+	if (!ss[ss_pos].open_ok) {
+		ss_pos++;
+		errno = EACCES;
+		return (-1);
+	}
+	cur = ss_pos++;
+	return (FAKE_FD + cur);
+}
+
+int __wrap_open(const char *, int, ...);
+int __wrap_open64(const char *, int, ...);
+ssize_t __wrap_read(int, void *, size_t);
+int __wrap_close(int);
+int __wrap_open(const char * path, int flags, ...) { return (os_open(path, flags)); }
+int __wrap_open64(const char * path, int flags, ...) { return (os_open(path, flags)); }
+
+ssize_t
+__wrap_read(int fd, void * buf, size_t n)
+{
+	struct sess * s;
+	struct rd * a;
+	size_t k;
+
+	if (cur < 0 || fd != FAKE_FD + cur) {
+		if (bad == NULL) bad = "read:descriptor";
+		errno = EBADF;
+		return (-1);
+	}
+	s = &ss[cur];
+	if (s->rcalls++ == 0) {
+		s->first_n = n; s->buf0 = buf; s->filled = 0;
+	} else if (((uint8_t *)buf != s->buf0 + s->filled || n != s->first_n - s->filled) && bad == NULL)
+		bad = "read:not-the-unfilled-rest";
+	if (n == 0 && bad == NULL) bad = "read:zero-length";
+	if (s->rpos >= s->nreads) {	/* script exhausted */
+		errno = EIO;
+		return (-1);
+	}
+	a = &s->reads[s->rpos++];
+	if (a->kind != 0) {
+		errno = (a->kind == 2) ? EINTR : EIO;
+		return (-1);
+	}
+	k = a->len < n ? a->len : n;
+	memcpy(buf, a->data, k);
+	s->filled += k;
+	return ((ssize_t)k);
+}
+
+int
+__wrap_close(int fd)
+{
+	struct sess * s;
+	char c;
+
+	if (cur < 0 || fd != FAKE_FD + cur) {
+		if (bad == NULL) bad = "close:descriptor";
+		errno = EBADF;
+		return (-1);
+	}
+	s = &ss[cur];
+	if (s->cpos >= s->ncloses) {	/* script exhausted */
+		cur = -1;
+		errno = EIO;
+		return (-1);
+	}
+	c = s->closes[s->cpos++];
+	if (c == 'k') { cur = -1; return (0); }
+	if (c == 'i') { errno = EINTR; return (-1); }
+	cur = -1;			/* the descriptor is gone either way */
+	errno = EIO;
+	return (-1);
+}
+
+static void
+parse_session(char * t, struct sess * s)
+{
+	char * r = strchr(t, ':'); char * c = r ? strchr(r + 1, ':') : NULL; char * p;
+
+	memset(s, 0, sizeof(*s));
+	if (r == NULL || c == NULL) return;
+	*r++ = 0; *c++ = 0;
+	s->open_ok = (strcmp(t, "o") == 0);
+	if (strcmp(r, "-") != 0) {
+		int cnt = 1;
+		for (p = r; *p; p++) if (*p == '/') cnt++;
+		s->reads = malloc((size_t)cnt * sizeof(struct rd));
+		p = r;
+		while (p != NULL) {
+			char * q = strchr(p, '/'); struct rd * a = &s->reads[s->nreads++];
+			if (q) *q++ = 0;
+			a->data = NULL; a->len = 0;
+			if (strcmp(p, "e") == 0) a->kind = 1;
+			else if (strcmp(p, "i") == 0) a->kind = 2;
+			else if (strcmp(p, "z") == 0) { a->kind = 0; a->data = malloc(1); }
+			else { a->kind = 0; a->data = drv_unhex(p, &a->len, 0); }
+			p = q;
+		}
+	}
+	if (strcmp(c, "-") != 0) { s->closes = c; s->ncloses = (int)strlen(c); }
+}
+
+static void
+load_sessions(char * str)
+{
+	char * p = str; int cnt = 1;
+
+	nss = ss_pos = 0; cur = -1; bad = NULL; norder = 0;
+	for (p = str; *p; p++) if (*p == ',') cnt++;
+	ss = malloc((size_t)cnt * sizeof(struct sess));
+	if (strcmp(str, "-") == 0) return;
+	p = str;
+	while (p != NULL) {
+		char * q = strchr(p, ',');
+		if (q) *q++ = 0;
+		parse_session(p, &ss[nss++]);
+		p = q;
+	}
+}
+
+static void
+free_sessions(void)
+{
+	int i, j;
+
+	for (i = 0; i < nss; i++) {
+		for (j = 0; j < ss[i].nreads; j++) free(ss[i].reads[j].data);
+		free(ss[i].reads);
+	}
+	free(ss); ss = NULL;
+	free(order); order = NULL;
+}
+
+static void
+print_sys(void)
+{
+	int i;
+
+	if (cur >= 0 && bad == NULL) bad = "descriptor-left-open";
+	if (bad != NULL) { printf(" sys=bad-system-call(%s)\n", bad); return; }
+	printf(" sys=");
+	if (norder == 0) printf("-");
+	for (i = 0; i < norder; i++) {
+		if (i) putchar('+');
+		if (order[i] < 0 || !ss[order[i]].open_ok) printf("x");
+		else printf("o%zur%dc%d", ss[order[i]].first_n, ss[order[i]].rpos, ss[order[i]].cpos);
+	}
+	putchar('\n');
+}
+
+static void
+os_case(char * ostr, char * rstr)
+{
+	char * p; int first = 1;
+
+	memset(&drbg, 0, sizeof(drbg));
+	instantiated = 0;
+	load_sessions(ostr);
+	p = rstr;
+	if (strcmp(rstr, "-") != 0) {
+		while (p != NULL) {
+			char * q = strchr(p, ',');
+			size_t n; uint8_t * buf; int rc;
+			if (q) *q++ = 0;
+			n = (size_t)strtoull(p, NULL, 10);
+			buf = malloc(n ? n : 1);
+			memset(buf, 0xaa, n);
+			rc = crypto_entropy_read(buf, n);
+			if (!first) putchar(' ');
+			first = 0;
+			if (rc == 0) { printf("0:"); drv_puthex(buf, n); }
+			else printf("%d", rc);
+			free(buf);
+			p = q;
+		}
+	}
+	printf(" | K="); drv_puthex(drbg.Key, 32);
+	printf(" V="); drv_puthex(drbg.V, 32);
+	printf(" c=%lu i=%d used=%d", (unsigned long)drbg.reseed_counter, instantiated != 0, ss_pos);
+	print_sys();
+	free_sessions();
+}
+
+static void
+sess_case(char * nstr, char * sstr)
+{
+	size_t n = (size_t)strtoull(nstr, NULL, 10);
+	uint8_t * buf = malloc(n ? n : 1);
+	int rc;
+
+	memset(buf, 0xaa, n);
+	load_sessions(sstr);
+	rc = entropy_read(buf, n);
+	if (rc == 0) { printf("ok "); drv_puthex(buf, n); }
+	else printf("fail");
+	if (norder != 1 && bad == NULL) bad = "open:not-exactly-once";
+	print_sys();
+	free_sessions();
+	free(buf);
 }
 
 #else
@@ -175,6 +423,11 @@ main(void)
 #ifdef DRV_FILL
 		if (n == 3 && strcmp(tok[0], "fill") == 0)
 			fill_case(tok[1], tok[2]);
+#elif defined(DRV_OS)
+		if (n == 3 && strcmp(tok[0], "os") == 0)
+			os_case(tok[1], tok[2]);
+		else if (n == 3 && strcmp(tok[0], "sess") == 0)
+			sess_case(tok[1], tok[2]);
 #else
 		if (n == 3 && strcmp(tok[0], "drbg") == 0)
 			drbg_case(tok[1], tok[2]);
